@@ -6,6 +6,7 @@ import JwtModel.Revocation
 import JwtModel.HashId
 import JwtModel.Validate
 import JwtModel.V1
+import JwtModel.DidSign
 import JwtProofs.GoRt
 /-!
 # Tie theorems: the functions translated from Go on this run (`Gen/Fn.lean`) compute the hand-written model
@@ -1088,5 +1089,188 @@ theorem v2_exportsValidate (env : VEnv) (opq : V2.Opq)
   unfold V2.Exports_Validate validateExports
   simp [forRange, v2_exports_loop env opq hInfo, v2_isContainedInList, push_push, Jwt.Val.asList,
     svcSubjectsOf, strSubjectsOf]
+
+/-! ## C08: signer attribution — `OperatorClaims.DidSign`, `AccountClaims.DidSign` over the `Claims` interface -/
+
+/-- what the model's `DidSign` reads of a claim, from the dynamic type and value the interface holds -/
+def viewOf : V2.I_Claims → ClaimView
+  | .OperatorClaims v => ⟨.operator, v.f_ClaimsData.f_Issuer, v.f_ClaimsData.f_Subject, []⟩
+  | .AccountClaims v => ⟨.account, v.f_ClaimsData.f_Issuer, v.f_ClaimsData.f_Subject, []⟩
+  | .UserClaims v => ⟨.user, v.f_ClaimsData.f_Issuer, v.f_ClaimsData.f_Subject, v.f_User.f_IssuerAccount⟩
+  | .ActivationClaims v => ⟨.activation, v.f_ClaimsData.f_Issuer, v.f_ClaimsData.f_Subject, v.f_Activation.f_IssuerAccount⟩
+  | .AuthorizationRequestClaims v => ⟨.authRequest, v.f_ClaimsData.f_Issuer, v.f_ClaimsData.f_Subject, []⟩
+  | .AuthorizationResponseClaims v => ⟨.authResponse, v.f_ClaimsData.f_Issuer, v.f_ClaimsData.f_Subject, []⟩
+  | .GenericClaims v => ⟨.generic, v.f_ClaimsData.f_Issuer, v.f_ClaimsData.f_Subject, []⟩
+
+theorem v2_claims_dispatch (c : V2.I_Claims) :
+    ∃ cd, V2.I_Claims.Claims c = some cd ∧ cd.f_Issuer = (viewOf c).issuer ∧ cd.f_Subject = (viewOf c).subject := by
+  cases c <;> exact ⟨_, rfl, rfl, rfl⟩
+
+theorem mapGet_isSome' {ν : Type} (l : List (Str × ν)) (k : Str) :
+    (mapGet (some l) k).isSome = decide (k ∈ l.map (·.1)) := by
+  induction l with
+  | nil => simp [mapGet, mapLookup]
+  | cons p r ih =>
+    obtain ⟨a, b⟩ := p
+    simp only [mapGet] at ih
+    by_cases h : a = k
+    · simp [mapGet, mapLookup, h]
+    · have h' : ¬ k = a := fun e => h e.symm
+      simp [mapGet, mapLookup, h, h', ih]
+
+/-- keys of a signing-key map (plain and scoped keys alike) -/
+def skKeys (m : GoMap Str (Option V2.I_Scope)) : List Str := (mapEntries m).map (·.1)
+
+theorem v2_skContains (m : GoMap Str (Option V2.I_Scope)) (k : Str) :
+    V2.SigningKeys_Contains m k = some (keyListed (skKeys m) k) := by
+  cases m with
+  | none => simp [V2.SigningKeys_Contains, mapGet, keyListed, skKeys, mapEntries]
+  | some l =>
+    simp only [V2.SigningKeys_Contains, mapGet_isSome', keyListed, skKeys, mapEntries]
+    by_cases h : k ∈ l.map (·.1)
+    · have : (l.map (·.1)).any (fun x => decide (x = k)) = true := by
+        rw [List.any_eq_true]; exact ⟨k, h, by simp⟩
+      simp [h, this]
+    · have : (l.map (·.1)).any (fun x => decide (x = k)) = false := by
+        rw [Bool.eq_false_iff, ne_eq, List.any_eq_true]
+        rintro ⟨x, hx, he⟩
+        simp at he; exact h (he ▸ hx)
+      simp [h, this]
+
+theorem v2_strContains_keyListed (u : List Str) (p : Str) : V2.StringList_Contains u p = some (keyListed u p) := by
+  rw [v2_strContains]
+  simp only [strContains, Lists.contains, keyListed, id]
+  by_cases h : p ∈ u
+  · have : u.any (fun x => decide (x = p)) = true := by rw [List.any_eq_true]; exact ⟨p, h, by simp⟩
+    simp [h, this]
+  · have : u.any (fun x => decide (x = p)) = false := by
+      rw [Bool.eq_false_iff, ne_eq, List.any_eq_true]
+      rintro ⟨x, hx, he⟩
+      simp at he; exact h (he ▸ hx)
+    simp [h, this]
+
+/-- `(*OperatorClaims).DidSign` -/
+theorem v2_operatorDidSign (oc : V2.T_OperatorClaims) (op : Option V2.I_Claims) :
+    V2.OperatorClaims_DidSign oc op =
+      some (operatorDidSign oc.f_ClaimsData.f_Subject oc.f_Operator.f_StrictSigningKeyUsage oc.f_Operator.f_SigningKeys
+        (op.map viewOf)) := by
+  unfold V2.OperatorClaims_DidSign operatorDidSign
+  cases op with
+  | none => simp
+  | some c =>
+    obtain ⟨cd, hcd, hi, hs⟩ := v2_claims_dispatch c
+    simp only [Option.isNone_some, Bool.false_eq_true, if_false, hcd, Option.map_some, v2_strContains_keyListed,
+      Option.pure_def, Option.bind_eq_bind, Option.bind_some, hi, hs]
+    by_cases h1 : (viewOf c).issuer = oc.f_ClaimsData.f_Subject <;> cases hst : oc.f_Operator.f_StrictSigningKeyUsage <;>
+      simp [h1, hst, Bool.beq_eq_decide_eq]
+
+/-- `(*AccountClaims).DidSign` -/
+theorem v2_accountDidSign (a : V2.T_AccountClaims) (c : Option V2.I_Claims) :
+    V2.AccountClaims_DidSign a c =
+      some (accountDidSign a.f_ClaimsData.f_Subject (skKeys a.f_Account.f_SigningKeys) (c.map viewOf)) := by
+  unfold V2.AccountClaims_DidSign accountDidSign
+  cases c with
+  | none => simp
+  | some cl =>
+    obtain ⟨cd, hcd, hi, hs⟩ := v2_claims_dispatch cl
+    simp only [Option.isSome_some, if_true, hcd, Option.map_some, v2_skContains, Option.pure_def, Option.bind_eq_bind,
+      Option.bind_some, hi]
+    by_cases h1 : (viewOf cl).issuer = a.f_ClaimsData.f_Subject
+    · simp [h1]
+    · cases cl <;> simp [h1, viewOf, Bool.beq_eq_decide_eq] <;> split <;> (try split) <;> simp_all
+
+/-! ## C06: `RenamingSubject.Validate` (rows M5a–f): the token loop with `$n` references; `strconv.Atoi` is a parameter -/
+
+theorem refIndex_short (tk : Str) (h : utf8Len tk < 2) : refIndex tk = none := by
+  unfold refIndex; simp [h]
+theorem refIndex_dollar (cs : Str) (h : ¬ utf8Len ('$' :: cs) < 2) : refIndex ('$' :: cs) = atoi cs := by
+  unfold refIndex; simp [h]
+theorem refIndex_other (c : Char) (cs : Str) (hd : c ≠ '$') : refIndex (c :: cs) = none := by
+  unfold refIndex
+  split
+  · rfl
+  · split
+    · rename_i rest heq; simp at heq; exact absurd heq.1 hd
+    · rfl
+
+/-- one token of the loop: the issue it raises and what it adds to the reference count -/
+theorem renaming_step (opq : V2.Opq) (hAtoi : ∀ x, opq.strconv_Atoi x = atoi x) (s frm : Str) (fc : Int)
+    (i : Int) (tk : Str) (vr : V2.T_ValidationResults) (rc : Int) :
+    V2.RenamingSubject_Validate.loop1 s frm fc opq i tk (vr, rc) =
+      some (.next (push vr (renamingLoop fc [tk]).1, rc + (renamingLoop fc [tk]).2)) := by
+  unfold V2.RenamingSubject_Validate.loop1
+  simp only [renamingLoop]
+  have hsl : strLen tk = (utf8Len tk : Int) := rfl
+  by_cases hlen : utf8Len tk < 2
+  · have h1 : decide (strLen tk < 2) = true := by rw [hsl]; simp; omega
+    rw [refIndex_short tk hlen]
+    by_cases hs : tk = ['*']
+    · subst hs; simp [h1, Bool.beq_eq_decide_eq]
+    · simp [hs, h1, Bool.beq_eq_decide_eq]
+  · have h1 : decide (strLen tk < 2) = false := by rw [hsl]; simp; omega
+    cases tk with
+    | nil => simp [utf8Len] at hlen
+    | cons c cs =>
+      obtain ⟨b, hb, he⟩ := strByte_first_ascii c cs 36 (by decide)
+      have he' : (b == (36 : Int)) = decide (c.toNat = 36) := by simpa using he
+      have hstar : ¬ (c :: cs = ['*']) := by
+        intro e; rw [e] at hlen; simp [utf8Len, utf8Width] at hlen
+      by_cases hd : c = '$'
+      · subst hd
+        have hb36 : (b == (36 : Int)) = true := by rw [he']; decide
+        have hb36p : b = 36 := by simpa using hb36
+        have hsl1 := strSliceFrom_one '$' cs (by decide)
+        rw [refIndex_dollar cs hlen]
+        simp only [hstar, h1, hb, hb36, hb36p, hsl1, hAtoi, Bool.beq_eq_decide_eq, Option.pure_def, Option.bind_eq_bind,
+          Option.bind_some, if_false, if_true, Bool.false_eq_true, decide_false, decide_true, v2_addError, ite_some]
+        cases ha : atoi cs with
+        | none => simp
+        | some n =>
+          by_cases hn : n > fc
+          · simp [hn, push_push, hb36p]
+          · have hn' : ¬ fc < n := by omega
+            simp [hn, hn', push_push, hb36p]
+      · have hne : ¬ c.toNat = 36 := fun e => hd (char_eq_of_toNat (by simpa using e))
+        have hb36 : (b == (36 : Int)) = false := by rw [he']; simp [hne]
+        have hb36p : ¬ b = 36 := by simpa using hb36
+        rw [refIndex_other c cs hd]
+        simp [hstar, h1, hb, hb36, hb36p, Bool.beq_eq_decide_eq]
+
+theorem renamingLoop_cons (fc : Int) (tk : Str) (rest : List Str) :
+    renamingLoop fc (tk :: rest) =
+      ((renamingLoop fc [tk]).1 ++ (renamingLoop fc rest).1, (renamingLoop fc [tk]).2 + (renamingLoop fc rest).2) := by
+  simp only [renamingLoop]
+  cases refIndex tk with
+  | none => simp
+  | some idx => by_cases h : idx > fc <;> simp [h] <;> omega
+
+theorem renaming_loop (opq : V2.Opq) (hAtoi : ∀ x, opq.strconv_Atoi x = atoi x) (s frm : Str) (fc : Int) :
+    ∀ (toks : List Str) (i : Int) (vr : V2.T_ValidationResults) (rc : Int),
+    forRangeFrom (ρ := V2.T_ValidationResults) (V2.RenamingSubject_Validate.loop1 s frm fc opq) i toks (vr, rc) =
+      some (.done (push vr (renamingLoop fc toks).1, rc + (renamingLoop fc toks).2)) := by
+  intro toks
+  induction toks with
+  | nil => intro i vr rc; simp [forRangeFrom, renamingLoop]
+  | cons tk rest ih =>
+    intro i vr rc
+    simp only [forRangeFrom, renaming_step opq hAtoi, ih, renamingLoop_cons fc tk rest, push_push]
+    simp [Int.add_assoc]
+
+/-- `RenamingSubject.Validate(from, vr)` = the model's `validateRenaming` — and it never panics, whatever the tokens -/
+theorem v2_renamingValidate (opq : V2.Opq) (hAtoi : ∀ x, opq.strconv_Atoi x = atoi x) (s frm : Str)
+    (vr : V2.T_ValidationResults) :
+    V2.RenamingSubject_Validate s frm vr opq = some (push vr (validateRenaming s frm)) := by
+  unfold V2.RenamingSubject_Validate validateRenaming
+  have hsp : GoRt.contains s [' '] = hasSpace s := by rw [contains_single]; rfl
+  have hend : ∀ x : Str, ((x == ['>']) || hasSuffix x ['.', '>']) = endsInGt x := by
+    intro x; simp [endsInGt, hasSuffix, Bool.beq_eq_decide_eq]
+  simp only [v2_subjectValidate, v2_addError, v2_countTokenWildcards, hsp, hend, forRange, GoRt.split,
+    renaming_loop opq hAtoi, Option.pure_def, Option.bind_eq_bind, Option.bind_some, ite_some, push_ite, push_push]
+  cases hr : renamingLoop (↑(countTokenWildcards frm)) (splitOn '.' s) with
+  | mk is n =>
+    simp only [Int.zero_add]
+    by_cases h1 : frm = [] <;> by_cases h2 : hasSpace s = true <;> by_cases h3 : endsInGt s = endsInGt frm <;>
+      by_cases h4 : n = (countTokenWildcards frm : Int) <;>
+      simp [h1, h2, h3, h4, errIf, push_push, Bool.beq_eq_decide_eq]
 
 end Jwt.FnTie
